@@ -197,10 +197,24 @@ const (
 	// a side-effecting operator inside the shared sub-slice (its observations
 	// are recorded under operator index -1).
 	ShapeSharedWriter
+	// ShapeFanout: x = Map:add1(Src); Cogroup(A, B) where A and B each consume
+	// x, chosen by N1 resp. N2: 0 = Filter:all(x) (no shuffle of its own),
+	// n >= 1 = Reshard(x, n). With Ext{Pragma: PragmaMaterialize, PragmaPos: -2}
+	// x is materialized, i.e. compiled on its own as a non-shuffle dependency
+	// of Filter:all AND as a shuffle dependency with n partitions of Reshard.
+	ShapeFanout
 	numShapes
 )
 
-var shapeNames = [...]string{"chain", "shared", "nested", "cogroup3", "sharedwriter"}
+var shapeNames = [...]string{"chain", "shared", "nested", "cogroup3", "sharedwriter", "fanout"}
+
+// fanoutOp is the consumer of ShapeFanout selected by n.
+func fanoutOp(n int) Op {
+	if n == 0 {
+		return Op{Kind: OpFilter, Var: FilterAll}
+	}
+	return Op{Kind: OpReshard, N: n}
+}
 
 // Program is a complete bigslice program with its input data.
 type Program struct {
@@ -246,7 +260,7 @@ func (p Program) String() string {
 	if p.usesSrc2() {
 		b.WriteString(" src2=" + p.Src2.String())
 	}
-	if p.Shape == ShapeShared || p.Shape == ShapeSharedWriter {
+	if p.Shape == ShapeShared || p.Shape == ShapeSharedWriter || p.Shape == ShapeFanout {
 		fmt.Fprintf(&b, " n1=%d n2=%d", p.N1, p.N2)
 	}
 	if p.Shape == ShapeNested {
@@ -291,6 +305,14 @@ func (p Program) NumShuffles() int {
 		n = 5
 	case ShapeCogroup3:
 		n = 1
+	case ShapeFanout:
+		n = 1
+		if p.N1 > 0 {
+			n++
+		}
+		if p.N2 > 0 {
+			n++
+		}
 	}
 	for _, o := range p.Ops {
 		if o.IsShuffle() {
@@ -526,6 +548,11 @@ func (p Program) RootType() (Type, bool) {
 		return SourceType(p.Src), true
 	case ShapeShared, ShapeSharedWriter:
 		if !ii || p.N1 < 1 || p.N2 < 1 {
+			return Type{}, false
+		}
+		return Type{Cols: cols(Int, Ints, Ints), Prefix: 1, PrefixKnown: true}, true
+	case ShapeFanout:
+		if !ii || p.N1 < 0 || p.N2 < 0 {
 			return Type{}, false
 		}
 		return Type{Cols: cols(Int, Ints, Ints), Prefix: 1, PrefixKnown: true}, true
